@@ -1,0 +1,68 @@
+// Copyright 2025 UnoDB contributors
+#ifndef UNODB_DETAIL_VERIF_HOOKS_HPP
+#define UNODB_DETAIL_VERIF_HOOKS_HPP
+
+/// \file
+/// Deterministic-simulation hook points.
+///
+/// With UNODB_DETAIL_VERIF_HOOKS undefined (the default, CMake never defines
+/// it) every macro below expands to a no-op and nothing else in this header is
+/// visible. With it defined, each shared-memory access of the OLC protocol and
+/// of QSBR announces itself to an externally-defined scheduler immediately
+/// before it happens, so that a simulation harness can decide which thread
+/// performs the next access. The harness must define the three `extern "C"`
+/// functions.
+
+#ifdef UNODB_DETAIL_VERIF_HOOKS
+
+extern "C" {
+/// Scheduling point immediately before a shared-memory access of \a kind to
+/// \a addr.
+void unodb_verif_point(int kind, const void* addr) noexcept;
+/// Buggify point: returns non-zero if the weak CAS at \a site should behave as
+/// if it failed spuriously.
+int unodb_verif_buggify(int site) noexcept;
+/// Coverage probe: the rarely-taken branch \a probe was reached.
+void unodb_verif_probe(int probe) noexcept;
+}
+
+// Hook kinds. Values are part of the harness interface.
+#define UNODB_DETAIL_VERIF_LOCK_LOAD 1
+#define UNODB_DETAIL_VERIF_LOCK_CAS 2
+#define UNODB_DETAIL_VERIF_LOCK_STORE 3
+#define UNODB_DETAIL_VERIF_FIELD_LOAD 4
+#define UNODB_DETAIL_VERIF_FIELD_STORE 5
+#define UNODB_DETAIL_VERIF_SPIN 6
+#define UNODB_DETAIL_VERIF_QSBR_STATE_LOAD 7
+#define UNODB_DETAIL_VERIF_QSBR_STATE_RMW 8
+#define UNODB_DETAIL_VERIF_QSBR_ORPHAN_LOAD 9
+#define UNODB_DETAIL_VERIF_QSBR_ORPHAN_RMW 10
+#define UNODB_DETAIL_VERIF_QSBR_ORPHAN_LINK 11
+#define UNODB_DETAIL_VERIF_FAKE_LOAD 12
+#define UNODB_DETAIL_VERIF_FAKE_STORE 13
+
+// Probe ids (branches marked "impossible to get deterministically").
+#define UNODB_DETAIL_VERIF_PROBE_REGISTER_DURING_EPOCH_CHANGE 1
+#define UNODB_DETAIL_VERIF_PROBE_REGISTER_WAITED 2
+#define UNODB_DETAIL_VERIF_PROBE_UNREGISTER_DURING_EPOCH_CHANGE 3
+#define UNODB_DETAIL_VERIF_PROBE_UNREGISTER_CAS_RETRY 4
+#define UNODB_DETAIL_VERIF_PROBE_UNREGISTER_PREPARED_NOT_ADVANCING 5
+#define UNODB_DETAIL_VERIF_PROBE_ORPHAN_TAIL_APPEND 6
+#define UNODB_DETAIL_VERIF_PROBE_REGISTER_CAS_RETRY 7
+#define UNODB_DETAIL_VERIF_PROBE_CHANGE_EPOCH_CAS_RETRY 8
+#define UNODB_DETAIL_VERIF_PROBE_ORPHAN_ADD_CAS_RETRY 9
+
+#define UNODB_DETAIL_VERIF_POINT(kind, addr) \
+  unodb_verif_point((kind), static_cast<const void*>(addr))
+#define UNODB_DETAIL_VERIF_BUGGIFY(site) (unodb_verif_buggify(site) != 0)
+#define UNODB_DETAIL_VERIF_PROBE(probe) unodb_verif_probe(probe)
+
+#else  // UNODB_DETAIL_VERIF_HOOKS
+
+#define UNODB_DETAIL_VERIF_POINT(kind, addr) ((void)0)
+#define UNODB_DETAIL_VERIF_BUGGIFY(site) (false)
+#define UNODB_DETAIL_VERIF_PROBE(probe) ((void)0)
+
+#endif  // UNODB_DETAIL_VERIF_HOOKS
+
+#endif  // UNODB_DETAIL_VERIF_HOOKS_HPP
